@@ -29,9 +29,18 @@ class StatAgent(Agent):
         self.agent_type = self.get_property_value("kind")
         self.state = "s1"
 
+    def act(self, time, round_no, step_no):
+        m = self.model
+        if m.churn == ("act", m.k) and m.agents and m.agents[0] is self:
+            m.delete_agent(self.id)      # an agent retires itself in mid-step
+
+
+A_PROPS = {"kind": {"type": "String", "value": "a"}, "x": {"type": "Integer", "value": 0}, "y": {"type": "Double", "value": 0.0}}
+
 
 class StatModel(Model):
     plan = None     # list per agent (creation order): (pattern index, x, y)
+    churn = None    # (where, k): in step k the oldest agent leaves and a new agent of type a joins - in begin_round, from act(), or in end_round
 
     def instantiate_model(self):
         self.register_agent_factory("a", lambda agent_id, model, properties: StatAgent(agent_id, model, properties))
@@ -41,9 +50,11 @@ class StatModel(Model):
 
     def begin_round(self, time, sim_round, step):
         k = self.k
-        for i, ag in enumerate(self.agents):
+        if self.churn == ("begin", k):
+            self._churn()
+        for ag in self.agents:
             if ag.agent_type == "a":
-                pat, x, y = self.plan[i]
+                pat, x, y = self.plan[ag.id % len(self.plan)]
                 ag.state = PATTERNS[pat][k % 3]
                 ag.set_property_value("x", x + k)
                 ag.set_property_value("y", y * (k + 1))
@@ -51,7 +62,18 @@ class StatModel(Model):
                 ag.state = "s1" if k % 2 == 0 else "s2"
                 ag.set_property_value("x", 100 + k)
 
+    def _churn(self):
+        import copy
+        if self.agents:
+            self.delete_agent(self.agents[0].id)
+        self.create_agent("a", copy.deepcopy(A_PROPS))
+
     def end_round(self, time, sim_round, step):
+        if self.churn == ("end", self.k):
+            self._churn()
+        elif self.churn == ("act", self.k):
+            import copy
+            self.create_agent("a", copy.deepcopy(A_PROPS))
         self.snap[float(time)] = [(a.agent_type, a.state, {p: v["value"] for p, v in a.properties.items() if v["type"] in ("Integer", "Double")}) for a in self.agents]
         self.k += 1
 
@@ -86,7 +108,7 @@ _bptk = None
 _n = [0]
 
 
-def run_population(pop, dt):
+def run_population(pop, dt, churn=None):
     global _bptk
     if _bptk is None:
         _bptk = core.new_bptk()
@@ -103,6 +125,7 @@ def run_population(pop, dt):
             "sc": {"runspecs": {"starttime": 0, "stoptime": 2 if dt == 1 else 1, "dt": dt}, "properties": {}, "agents": agents}}}})
         sc = b.get_scenario(sm, "sc")
         sc.plan = list(pop)
+        sc.churn = churn
         first = True
         ever = None
         for sa in SEL_AGENTS:
@@ -351,6 +374,11 @@ def populations(tier):
             out.append((c, 1))
         for c in itertools.combinations_with_replacement(small, 2):
             out.append((c, 0.5))
+    # the population changes during the run: in step k the oldest agent leaves and a new one joins (from begin_round, act() or end_round)
+    for where in ("begin", "act", "end"):
+        for k in (0, 1, 2):
+            for c in [(small[0],), (small[1], small[4]), (small[2], small[7], small[5])] + ([(a, b) for a in small[:4] for b in small[4:]] if tier == "thorough" else []):
+                out.append((c, "churn:%s:%d" % (where, k)))
     # pairs of different populations as two scenarios of one manager
     for i, a in enumerate(small):
         for c in small[i + 1:i + 4]:
@@ -369,6 +397,9 @@ def _work(part):
     for pop, dt in part:
         if dt == "pair":
             out.append(run_pair(list(pop[0]), list(pop[1])))
+        elif isinstance(dt, str):
+            _, where, k = dt.split(":")
+            out.append(run_population(list(pop), 1, churn=(where, int(k))))
         else:
             out.append(run_population(list(pop), dt))
     return out
@@ -396,7 +427,7 @@ def run(ctx):
         "evaluations": ncmp, "distinct_nontrivial": len(pops),
         "rule": "populations = multisets of (state pattern over the steps, Integer x, Double y) of size 1..3 (thorough: 3 complete, 4 restricted) of "
                 "type a plus one agent of type b; per population: Model.statistics() and every selection agents x states x properties x aggregate "
-                "types x {df, dict, json}; distinct = distinct population; every one is non-trivial (aggregates differ for >= 2 agents)",
+                "types x {df, dict, json}; plus runs in which the oldest agent leaves and a new one joins in step 0/1/2 (from begin_round, act(), end_round); distinct = distinct population; every one is non-trivial (aggregates differ for >= 2 agents)",
         "selections_per_population": len(SEL_AGENTS) * len(SEL_STATES) * (1 + (len(SEL_PROPS) - 1) * len(SEL_TYPES)) * 3,
         "samples": [{"population": repr(p), "dt": d} for p, d in pops[:2]] + [{"population": repr(pops[len(pops) // 2][0]), "dt": pops[len(pops) // 2][1]}],
     }, assumptions=["every agent of a type carries the same property set (aggregates over agents lacking a property are not defined by the statement)",
@@ -407,5 +438,10 @@ def replay(case):
     if "pair" in case:
         viol, _ = run_pair([tuple(a) for a in case["pair"][0]], [tuple(a) for a in case["pair"][1]])
         return viol or None
-    viol, _ = run_population([tuple(a) for a in case["population"]], case["dt"])
+    dt = case["dt"]
+    churn = None
+    if isinstance(dt, str):
+        _, where, k = dt.split(":")
+        dt, churn = 1, (where, int(k))
+    viol, _ = run_population([tuple(a) for a in case["population"]], dt, churn=churn)
     return viol or None
